@@ -2,6 +2,7 @@ package main
 
 import (
 	"fmt"
+	"runtime"
 	"sort"
 	"strings"
 
@@ -22,12 +23,45 @@ func init() {
 		domUpd)
 }
 
-type sameVersionConverter struct{}
+// sameVersionConverter: identity on objects; versions can be switched to "missing" (the converter
+// reports the version as gone) or "failing" (ordinary conversion error) during a history.
+type sameVersionConverter struct {
+	missing map[fieldpath.APIVersion]bool
+	failing map[fieldpath.APIVersion]bool
+}
 
-func (sameVersionConverter) Convert(object *typed.TypedValue, version fieldpath.APIVersion) (*typed.TypedValue, error) {
+type missingVersionError struct{ v fieldpath.APIVersion }
+
+func (e missingVersionError) Error() string { return "missing version " + string(e.v) }
+
+func (c sameVersionConverter) Convert(object *typed.TypedValue, version fieldpath.APIVersion) (*typed.TypedValue, error) {
+	if c.failing[version] {
+		return nil, fmt.Errorf("conversion to %s failed", version)
+	}
+	if c.missing[version] {
+		return nil, missingVersionError{version}
+	}
 	return object, nil
 }
-func (sameVersionConverter) IsMissingVersionError(error) bool { return false }
+func (sameVersionConverter) IsMissingVersionError(err error) bool {
+	_, ok := err.(missingVersionError)
+	return ok
+}
+
+func (c sameVersionConverter) enc() string {
+	f := func(m map[fieldpath.APIVersion]bool) string {
+		var names []string
+		for _, v := range versionLabels {
+			if m[v] {
+				names = append(names, vx.Str(string(v)))
+			}
+		}
+		return "[" + strings.Join(names, "") + "]"
+	}
+	return f(c.missing) + " " + f(c.failing)
+}
+
+func (c sameVersionConverter) degraded() bool { return len(c.missing)+len(c.failing) > 0 }
 
 func encManaged(m fieldpath.ManagedFields) string {
 	names := make([]string, 0, len(m))
@@ -142,11 +176,11 @@ func genIgnore(r *gen.Rng, c *typCtx, rootRef sgen.Ref) ignoreCfg {
 var versionLabels = []fieldpath.APIVersion{"v1", "v2", "v3", "v4"}
 
 // equivalentFilterUpdater: the exclusion set given as the equivalent Filter (C19: identical results).
-func (ig ignoreCfg) equivalentFilterUpdater(noop bool) *merge.Updater {
+func (ig ignoreCfg) equivalentFilterUpdater(noop bool, conv sameVersionConverter) *merge.Updater {
 	if ig.kind != "exclude" {
 		return nil
 	}
-	b := &merge.UpdaterBuilder{Converter: sameVersionConverter{}, ReturnInputOnNoop: noop}
+	b := &merge.UpdaterBuilder{Converter: conv, ReturnInputOnNoop: noop}
 	b.IgnoreFilter = map[fieldpath.APIVersion]fieldpath.Filter{}
 	for _, v := range versionLabels {
 		b.IgnoreFilter[v] = fieldpath.NewExcludeSetFilter(ig.exclude)
@@ -155,7 +189,11 @@ func (ig ignoreCfg) equivalentFilterUpdater(noop bool) *merge.Updater {
 }
 
 func (ig ignoreCfg) updater(noop bool) *merge.Updater {
-	b := &merge.UpdaterBuilder{Converter: sameVersionConverter{}, ReturnInputOnNoop: noop}
+	return ig.updaterWith(noop, sameVersionConverter{})
+}
+
+func (ig ignoreCfg) updaterWith(noop bool, conv sameVersionConverter) *merge.Updater {
+	b := &merge.UpdaterBuilder{Converter: conv, ReturnInputOnNoop: noop}
 	switch ig.kind {
 	case "exclude":
 		b.IgnoredFields = map[fieldpath.APIVersion]*fieldpath.Set{}
@@ -174,6 +212,8 @@ func (ig ignoreCfg) updater(noop bool) *merge.Updater {
 type updState struct {
 	live     *typed.TypedValue
 	managers fieldpath.ManagedFields
+	conv     sameVersionConverter
+	rng      *gen.Rng
 	// tainted: an earlier step of this history already hit finding D8 (pruning under an ignore
 	// configuration); the state is then inconsistent and later inconsistencies are consequences.
 	tainted bool
@@ -203,6 +243,7 @@ func rootValue(c *typCtx, r *gen.Rng, ref sgen.Ref, depth int, o *sgen.VOpts) in
 }
 
 func domUpd(r *gen.Rng, n int, thorough bool, o *Out) {
+	corpusWitnesses(o)
 	var c *typCtx
 	for h := 0; h < n; h++ {
 		cr := r.Fork(uint64(h))
@@ -217,13 +258,15 @@ func domUpd(r *gen.Rng, n int, thorough bool, o *Out) {
 		tr := c.typeRef(rootRef)
 		ig := genIgnore(cr, c, rootRef)
 		noop := cr.Chance(10)
-		up := ig.updater(noop)
+		conv := sameVersionConverter{missing: map[fieldpath.APIVersion]bool{}, failing: map[fieldpath.APIVersion]bool{}}
+		up := ig.updaterWith(noop, conv)
 		o.Emit("upd.reset "+vx.TypeRef(tr)+" "+ig.enc+" "+vx.Flag(noop), func() string { return "ok" })
 		live, err := typed.AsTyped(value.NewValueInterface(nil), c.sc, tr)
 		if err != nil {
 			panic(err)
 		}
-		st := &updState{live: live, managers: fieldpath.ManagedFields{}}
+		st := &updState{live: live, managers: fieldpath.ManagedFields{}, conv: conv, rng: cr}
+		degrade := cr.Chance(12) // some histories lose or break a version mid-way
 		steps := 2 + cr.Intn(7)
 		if thorough {
 			steps = 2 + cr.Intn(23)
@@ -243,7 +286,24 @@ func domUpd(r *gen.Rng, n int, thorough bool, o *Out) {
 			pool = append(pool, rootValue(c, cr.Fork(uint64(100+k)), rootRef, 3, vopts))
 		}
 		for s := 0; s < steps; s++ {
+			if degrade && s >= 1 && cr.Chance(30) {
+				v := versionLabels[cr.Intn(nv)]
+				if cr.Chance(70) {
+					conv.missing[v] = true
+				} else {
+					conv.failing[v] = !conv.failing[v]
+				}
+				o.Emit("upd.conv "+conv.enc(), func() string { return "ok" })
+				o.Tag("upd:converter-degraded")
+			}
 			ver := versionLabels[cr.Intn(nv)]
+			for tries := 0; conv.missing[ver] && tries < 8; tries++ {
+				// requests are never issued at a version the converter reports as gone
+				ver = versionLabels[cr.Intn(len(versionLabels))]
+			}
+			if conv.missing[ver] {
+				continue
+			}
 			isUpdate := len(updaters) > 0 && cr.Chance(35)
 			if !isUpdate {
 				mgr := gen.Pick(cr, appliers)
@@ -258,6 +318,9 @@ func domUpd(r *gen.Rng, n int, thorough bool, o *Out) {
 					cfg = dropSome(cr, cfg)
 				}
 				res := stepApply(o, c, up, ig, st, tr, mgr, ver, force, cfg, vopts.Plain, noop)
+				if strings.HasPrefix(res, "ok") {
+					emitSync(o, st)
+				}
 				transcript += "A" + mgr + res[:1]
 				if strings.HasPrefix(res, "conflict") {
 					interesting = true
@@ -266,6 +329,9 @@ func domUpd(r *gen.Rng, n int, thorough bool, o *Out) {
 				mgr := gen.Pick(cr, updaters)
 				obj := genUpdateObject(cr, c, st, rootRef, tr, pool)
 				res := stepUpdate(o, c, up, ig, st, tr, mgr, ver, obj)
+				if strings.HasPrefix(res, "ok") {
+					emitSync(o, st)
+				}
 				transcript += "U" + mgr + res[:1]
 			}
 		}
@@ -398,6 +464,23 @@ func addDuplicate(r *gen.Rng, v interface{}) interface{} {
 	return v
 }
 
+// emitSync hands the implementation's state to the model: after a step whose outcome depends on Go's
+// map iteration order (finding D10) the model cannot know which order Go took.
+func emitSync(o *Out, st *updState) {
+	o.Emit("upd.sync "+vx.Value(st.live.AsValue())+" "+encManaged(st.managers), func() string { return "ok" })
+}
+
+// distinctVersions: the versions visited by addBackOwnedItems for this request
+func distinctVersions(m fieldpath.ManagedFields, mgr string, ver fieldpath.APIVersion) int {
+	seen := map[fieldpath.APIVersion]bool{ver: true}
+	for k, vs := range m {
+		if k != mgr {
+			seen[vs.APIVersion()] = true
+		}
+	}
+	return len(seen)
+}
+
 func stepUpdate(o *Out, c *typCtx, up *merge.Updater, ig ignoreCfg, st *updState, tr schema.TypeRef, mgr string, ver fieldpath.APIVersion, obj interface{}) string {
 	op := "upd.update " + vx.Str(mgr) + " " + vx.Str(string(ver)) + " " + vx.Unstructured(obj)
 	return o.Emit(op, func() string {
@@ -409,16 +492,29 @@ func stepUpdate(o *Out, c *typCtx, up *merge.Updater, ig ignoreCfg, st *updState
 		pre := copyManaged(st.managers)
 		newObj, managers, err := up.Update(st.live, tv, ver, st.managers, mgr)
 		checkSnapshot(o, op, before, st, tv)
-		if up2 := ig.equivalentFilterUpdater(false); up2 != nil {
+		if up2 := ig.equivalentFilterUpdater(false, st.conv); up2 != nil {
 			_, m2, e2 := up2.Update(st.live, tv, ver, st.managers, mgr)
 			if (e2 == nil) != (err == nil) || (err == nil && !m2.Equals(managers)) {
 				o.Fail("C19", "exclusion-set-equals-filter", "", "exclusion-set-equals-filter "+op, op)
 			}
 		}
 		if err != nil {
-			o.Fail("C06", "update-never-fails-on-valid-input", err.Error(), "update-never-fails-on-valid-input "+op, op)
+			if newObj != nil || len(managers) != 0 {
+				o.Fail("C08", "updater/failure-returns-no-object", err.Error(), "updater/failure-returns-no-object "+op, op)
+			}
+			if !st.conv.degraded() {
+				o.Fail("C06", "update-never-fails-on-valid-input", err.Error(), "update-never-fails-on-valid-input "+op, op)
+			}
 			return "err"
 		}
+		repeatCheck(o, op, c, st, func() string {
+			_, m2, e2 := up.Update(st.live, tv, ver, st.managers, mgr)
+			if e2 != nil {
+				return "err"
+			}
+			return encManagedBytes(m2)
+		}, encManagedBytes(managers), false)
+		degradedNow = st.conv.degraded()
 		judgeUpdate(o, op, c, ig, st.live, tv, newObj, pre, managers, mgr, ver)
 		st.live, st.managers = newObj, managers
 		judgeInvariantIg(o, op, c, tr, st, ig.kind, "", false)
@@ -438,7 +534,7 @@ func stepApply(o *Out, c *typCtx, up *merge.Updater, ig ignoreCfg, st *updState,
 		pre := copyManaged(st.managers)
 		newObj, managers, err := up.Apply(st.live, tv, ver, st.managers, mgr, force)
 		checkSnapshot(o, op, before, st, tv)
-		if up2 := ig.equivalentFilterUpdater(noop); up2 != nil {
+		if up2 := ig.equivalentFilterUpdater(noop, st.conv); up2 != nil {
 			o2, m2, e2 := up2.Apply(st.live, tv, ver, st.managers, mgr, force)
 			same := (e2 == nil) == (err == nil) && (o2 == nil) == (newObj == nil)
 			if same && err == nil {
@@ -471,9 +567,29 @@ func stepApply(o *Out, c *typCtx, up *merge.Updater, ig ignoreCfg, st *updState,
 				}
 				return encConflicts(cs)
 			}
-			o.Fail("C06", "apply-fails-only-with-conflicts", err.Error(), "apply-fails-only-with-conflicts "+op, op)
+			if newObj != nil || len(managers) != 0 {
+				o.Fail("C08", "updater/failure-returns-no-object", err.Error(), "updater/failure-returns-no-object "+op, op)
+			}
+			if !st.conv.degraded() {
+				o.Fail("C06", "apply-fails-only-with-conflicts", err.Error(), "apply-fails-only-with-conflicts "+op, op)
+			}
 			return "err"
 		}
+		repeatCheck(o, op, c, st, func() string {
+			o2, m2, e2 := up.Apply(st.live, tv, ver, st.managers, mgr, force)
+			if e2 != nil {
+				return "err"
+			}
+			if o2 == nil {
+				return "_ " + encManagedBytes(m2)
+			}
+			return vx.Value(o2.AsValue()) + " " + encManagedBytes(m2)
+		}, func() string {
+			if newObj == nil {
+				return "_ " + encManagedBytes(managers)
+			}
+			return vx.Value(newObj.AsValue()) + " " + encManagedBytes(managers)
+		}(), func() bool { _, had := pre[mgr]; return had && distinctVersions(st.managers, mgr, ver) >= 3 }())
 		result := newObj
 		if result == nil {
 			result = st.live
@@ -489,6 +605,74 @@ func stepApply(o *Out, c *typCtx, up *merge.Updater, ig ignoreCfg, st *updState,
 		judgeIgnored(o, op, ig, managers)
 		return "ok obj=" + objs + " " + encManaged(managers)
 	})
+}
+
+var degradedNow bool
+
+// encManagedBytes: managers with the serialised bytes of every record (C09: byte-identical serialisations)
+func encManagedBytes(m fieldpath.ManagedFields) string {
+	names := make([]string, 0, len(m))
+	for k := range m {
+		names = append(names, k)
+	}
+	sort.Strings(names)
+	out := ""
+	for _, k := range names {
+		b, _ := m[k].Set().ToJSON()
+		out += fmt.Sprintf("%s/%s/%v/%s;", k, m[k].APIVersion(), m[k].Applied(), b)
+	}
+	return out
+}
+
+// disturb runs unrelated calls that leave state in the pooled walkers: root-leaf comparisons and
+// merges (empty / null / scalar roots), failing validations, failing merges, conflicts; sometimes a GC.
+func disturb(c *typCtx, r *gen.Rng) {
+	defer func() { recover() }()
+	for _, name := range []string{"root", "num", "numSet", "atomicMap", "__untyped_deduced_"} {
+		pt := c.parser.Type(name)
+		for _, v := range []interface{}{nil, map[string]interface{}{}, []interface{}{}, int64(1)} {
+			a, err1 := pt.FromUnstructured(v)
+			b, err2 := pt.FromUnstructured(v)
+			if err1 != nil || err2 != nil {
+				continue
+			}
+			a.Compare(b)
+			a.Merge(b)
+			a.ToFieldSet()
+		}
+	}
+	pt := c.parser.Type("root")
+	pt.FromUnstructured(map[string]interface{}{"zz_undeclared": []interface{}{int64(1)}})
+	pt.FromUnstructured([]interface{}{int64(1)})
+	if l, err := c.parser.Type("numSet").FromUnstructured([]interface{}{int64(1)}); err == nil {
+		if d, err := c.parser.Type("numSet").FromUnstructured([]interface{}{int64(2), int64(2)}, typed.AllowDuplicates); err == nil {
+			l.Merge(d)
+			l.Compare(d)
+		}
+	}
+	if r.Chance(10) {
+		runtime.GC()
+	}
+}
+
+// repeatCheck: the same call after unrelated traffic must give the same answer (C09).
+func repeatCheck(o *Out, op string, c *typCtx, st *updState, f func() string, first string, d10 bool) {
+	if st.rng == nil || !st.rng.Chance(35) {
+		return
+	}
+	disturb(c, st.rng)
+	for k := 0; k < 3; k++ {
+		second := safe(f)
+		if second != first {
+			sig := "same-call-same-result-after-other-calls "
+			if d10 {
+				// >= 3 API versions take part in the add-back of a re-apply: finding D10
+				sig = "same-call-same-result-after-other-calls/D10-version-iteration-order "
+			}
+			o.Fail("C09", "same-call-same-result-after-other-calls", "first: "+first+" | repeated: "+second, sig+op, op)
+			return
+		}
+	}
 }
 
 // --- C08: snapshots of the arguments -------------------------------------------------------------
@@ -550,6 +734,9 @@ func judgeConflicts(o *Out, op string, c *typCtx, ig ignoreCfg, st *updState, cf
 	fObj *typed.TypedValue, fManagers fieldpath.ManagedFields, fErr error,
 	uObj *typed.TypedValue, uManagers fieldpath.ManagedFields, uErr error, noop bool) {
 	fail := func(clause, detail string) { o.Fail("C04", clause, detail, clause+" "+op, op) }
+	if st.conv.degraded() {
+		return // conflicts are computed per version; with lost versions the single-version reference does not apply
+	}
 	if fErr != nil {
 		if _, ok := fErr.(merge.Conflicts); ok {
 			fail("force-never-conflicts", fErr.Error())
@@ -599,6 +786,11 @@ func judgeConflicts(o *Out, op string, c *typCtx, ig ignoreCfg, st *updState, cf
 		return
 	}
 	// unforced succeeded
+	if _, had := st.managers[mgr]; had && distinctVersions(st.managers, mgr, ver) >= 3 {
+		// two separate calls may visit the versions in different orders (finding D10, reported under C09):
+		// comparing them with each other is not meaningful
+		return
+	}
 	if len(want) != 0 {
 		keys := []string{}
 		for k := range want {
@@ -617,6 +809,9 @@ func judgeConflicts(o *Out, op string, c *typCtx, ig ignoreCfg, st *updState, cf
 
 func judgeApply(o *Out, op string, c *typCtx, ig ignoreCfg, up *merge.Updater, st *updState, cfg, result *typed.TypedValue, wasNoop bool,
 	pre, managers fieldpath.ManagedFields, mgr string, ver fieldpath.APIVersion, plain bool, noopMode bool) {
+	if st.conv.degraded() {
+		return
+	}
 	fsCfg, err := cfg.ToFieldSet()
 	if err != nil {
 		return
@@ -775,6 +970,9 @@ func judgeOthers(o *Out, op string, ig ignoreCfg, cmp *typed.Comparison, pre, po
 }
 
 func judgeUpdate(o *Out, op string, c *typCtx, ig ignoreCfg, live, submitted, returned *typed.TypedValue, pre, post fieldpath.ManagedFields, mgr string, ver fieldpath.APIVersion) {
+	if degradedNow {
+		return
+	}
 	if returned != submitted && !value.Equals(returned.AsValue(), submitted.AsValue()) {
 		o.Fail("C05", "update/returns-submitted-object", "", "update/returns-submitted-object "+op, op)
 	}
